@@ -58,7 +58,7 @@ package metrics
 //@   loop 1 invariant forall(k, 1, len(metrics), s.insts[k] == old(s.insts[k]) || (old(s.insts[k]) == nil && fresh(unbox(s.insts[k], *counterValue))))
 
 //@ func metrics.(*Scope).Reset
-//@   requires s != nil && regOK() && u != s
+//@   requires s != nil && u != s && implies(u != nil, regOK())
 //@   ensures  copies: implies(u != nil, forall(k, 0, len(metrics), s.insts[k] == u.insts[k]) && u.insts == old(u.insts))
 //@   ensures  cleared: implies(u == nil, s.storage == nil)
 //@   modifies s.insts, s.storage
